@@ -80,7 +80,7 @@ class FaultClf(object):
         """-> (response or None, executed)"""
         if self.proto == "T4":
             rep, rd = self.sim.block(data)
-            return rep, (self.sim.last_ex != 0 if data[0] & 0xE2 == 0x02 else rep is not None), rd
+            return rep, self.sim.last_ex != 0, rd
         rsp = self.sim.process(data)
         return rsp, (rsp is not None or getattr(self.sim, "passive", False)), None
 
@@ -102,7 +102,12 @@ class FaultClf(object):
                    (self.last == "rack")
         else:
             same = self.last == "fault" and data == self.cur
-        if not same:
+        if self.proto == "T4" and cc == "S":
+            # an S(WTX) response is a fault position of its own but belongs to the command that is being answered
+            self.npos += 1
+            sc = self.script
+            self.left = sc["b"] if sc and sc["p"] == self.npos else 0
+        elif not same:
             if self.proto == "T4" and cc == "R" and data[0] & 0xFE == 0xB2:
                 cc = "P"
             self.npos += 1
@@ -128,8 +133,10 @@ class FaultClf(object):
             raise nfc.clf.TimeoutError("mute tag")
         rk = "rack" if (self.proto == "T4" and self.curcc == "I" and data[0] & 0xFE == 0xB2 and rd["t"] == "RACK"
                         and rd["bn"] != data[0] & 1) else "rsp"
+        if self.proto == "T4" and rd["t"] == "WTX":
+            rk = "wtx"
         self.ev.append(dict(e="Answer", rk=rk, ex=bool(ex)))
-        self.last = "rack" if rk == "rack" else "answer"
+        self.last = rk if rk in ("rack", "wtx") else "answer"
         return bytearray(rsp)
 
 
@@ -158,9 +165,10 @@ def make_t3():
     return "T3", 0, sim, clf, nfc.tag.activate(clf, target)
 
 
-def make_t4(fwi=10, fsci=2, rchunk=20):
+def make_t4(fwi=10, fsci=2, rchunk=20, wtx=False):
     app = NdefApplet()
-    sim = SimPicc(app, fsci=fsci, fwi=fwi, rchunk=rchunk)
+    # wtx: the card asks for a waiting time extension before every block it produces (rule 9)
+    sim = SimPicc(app, fsci=fsci, fwi=fwi, rchunk=rchunk, wtx_plan=[True, False] * 400 if wtx else ())
     sim.app = app
     clf = FaultClf("T4", sim)
     target = nfc.clf.RemoteTarget("106A", sens_res=bytearray(b"\x44\x03"), sel_res=bytearray(b"\x20"),
@@ -268,6 +276,13 @@ def ops_table():
     T.append(("Type4ATag-fsc16-fwi11", lambda: make_t4(11, 0, 10), t4_chain[:4], (1, 2)))   # n_retry 1
     T.append(("Type4ATag-fsc24-fwi9", lambda: make_t4(9, 1, 10),
               [o for o in t4_chain if o[0] in ("update_binary_chained", "read_binary_chained")], (1, 3, 5, 6)))  # n_retry 5
+    # the card requests S(WTX) before every answer: the S(WTX) exchange is a fault position of its own; after a fault in it
+    # the command's recovery block (R(NAK) / R(ACK)) is due, in command chaining and in response chaining
+    T.append(("Type4ATag-wtx", lambda: make_t4(10, 0, 10, wtx=True),
+              [o for o in t4_chain if o[0] in ("update_binary_chained", "read_binary_chained", "ndef_read_chained")],
+              (1, 2, 3, 4)))
+    T.append(("Type4ATag-wtx-fwi11", lambda: make_t4(11, 1, 10, wtx=True),
+              [o for o in t4_chain if o[0] in ("read_binary_chained",)], (1, 2)))
     return T
 
 
@@ -326,14 +341,14 @@ def gen_traces(tier, only=None):
             base = "%s/%s" % (cname, oname)
             traces.append(dict(id=base + "/clean", const=const, ev=clf.ev))
             meta[base + "/clean"] = dict(cls=cname, op=oname, script=None)
-            scs = scripts_for(len(clean), bursts)
+            scs = scripts_for(clf.npos, bursts)
             for sc in scs:
                 p2, n2, clf2, sim2, tag2 = run_one(factory, setup, op, sc)
                 tid = "%s/p%d-%s-b%d-%s" % (base, sc["p"], sc["k"], sc["b"], sc["m"])
                 traces.append(dict(id=tid, const=const, ev=clf2.ev))
                 meta[tid] = dict(cls=cname, op=oname, script=sc)
             traces.append(dict(id=base + "/cover", const=const,
-                               ev=[dict(e="Cover", N=len(clean), bursts=list(bursts), scripts=scs)]))
+                               ev=[dict(e="Cover", N=clf.npos, bursts=list(bursts), scripts=scs)]))
             meta[base + "/cover"] = dict(cls=cname, op=oname, script="cover")
     return traces, meta
 
@@ -378,7 +393,7 @@ def selftest_traces(traces):
     return [t1, t2, t3]
 
 
-WITNESSES = ["W_GiveUp", "W_Doc", "W_AbsorbAfter", "W_Rack", "W_Passive"]
+WITNESSES = ["W_GiveUp", "W_Doc", "W_AbsorbAfter", "W_Rack", "W_Passive", "W_WtxFault"]
 BUGGY = ["Bounded", "NoResendAfterAnswer", "Retries", "OnlyTagError", "AtMostOncePerAnswer"]
 
 
